@@ -32,8 +32,9 @@ func CheckRootSchema(rootSchema *schema.Schema) {
 		c.checkNode(rootSchema.RootNode(), rootSchema.TypesList())
 	}
 
-	for name, typ := range rootSchema.TypesList() {
-		c.checkType(name, typ, rootSchema.TypesList())
+	types := rootSchema.TypesList()
+	for _, name := range rootSchema.TypeNames() {
+		c.checkType(name, types[name], types)
 	}
 }
 
